@@ -1,0 +1,241 @@
+//go:build verif
+
+// Contracts for the verifier in /verif (govc). Comment-only: no declarations.
+
+package enc
+
+//@ ghost G_lastenc() interface{}
+
+//@ pred dnsSafe(b byte) := b > 0x20 && b != 0x7f && b != '.' && b != '\\'
+//@ pred alphabetOK(a string, n int) := len(a) == n
+//@      && (forall i :: 0 <= i && i < len(a) ==> dnsSafe(a[i]))
+//@      && (forall i j :: 0 <= i && i < j && j < len(a) ==> a[i] != a[j])
+//@ pred inA85(b byte) := ('!' <= b && b <= 'u') || b == 'z'
+
+// The package initialiser builds the library encodings: the trusted contracts of NewEncoding /
+// WithPadding require (checked here, at the call sites) duplicate-free DNS-safe alphabets and no padding.
+//@ func init
+//@   property C08
+//@   safe
+
+//@ func init#1
+//@   property C08
+//@   modifies cb128Invert, cbInitialized
+
+//@ func setupCb128Invert
+//@   property C08
+//@   modifies cb128Invert, cbInitialized
+//@   trusted "runs its body through sync.Once; only the inverse table and the Once are written"
+
+//@ property C08
+//@ pkginv Base32Encoding != nil && Base64Encoding != nil && Base64uEncoding != nil && Base85Encoding != nil && Base91Encoding != nil && Base128Encoding != nil && Base192Encoding != nil && RawEncoding != nil   :codecs_registered
+//@ pkginv iodineBase32Encoding != nil && iodineBase64Encoding != nil && iodineBase64uEncoding != nil && iodineBase91Encoding != nil   :encodings_built
+
+//@ property C08
+//@ const alphabetOK(cb128, 128)                           :cb128_alphabet
+//@ const forall n :: 0 <= n && n <= 1<<40 ==> (n*8+4)/5 <= n*8/5 + 1        :base32_bound
+//@ const forall n :: 0 <= n && n <= 1<<40 ==> (n*8+5)/6 <= n*4/3 + 1        :base64_bound
+//@ const forall n m :: 0 <= n && n <= 1<<40 && 7*m >= 8*n && 0 <= m && m <= 1<<41 && 7*m < 8*n+7 ==> m <= n*8/7 + 1     :base128_bound
+//@ const forall n :: 0 <= n && n <= 1<<40 ==> n/4*5 + (n%4 + 1) <= n*5/4 + 2   :base85_bound
+
+// ---- Base32
+//@ func (b *Base32Encoder) Encode
+//@   property C08
+//@   safe
+//@   modifies G_lastenc()
+//@   ensures G_lastenc() == iodineBase32Encoding             :same_encoding
+//@   ensures len(result) == (len(data)*8+4)/5                :len
+//@ func (b *Base32Encoder) Decode
+//@   property C08
+//@   safe
+//@   modifies G_lastenc()
+//@   ensures G_lastenc() == iodineBase32Encoding             :same_encoding
+//@   ensures err != nil ==> result == nil
+//@ func (b *Base32Encoder) Ratio
+//@   property C08
+//@   pure
+//@   ensures result == 8.0/5.0
+//@ func (b *Base32Encoder) Code
+//@   property C08
+//@   pure
+//@   ensures result == 'T'
+
+// ---- Base64
+//@ func (b *Base64Encoder) Encode
+//@   property C08
+//@   safe
+//@   modifies G_lastenc()
+//@   ensures G_lastenc() == iodineBase64Encoding             :same_encoding
+//@   ensures len(result) == (len(data)*8+5)/6                :len
+//@ func (b *Base64Encoder) Decode
+//@   property C08
+//@   safe
+//@   modifies G_lastenc()
+//@   ensures G_lastenc() == iodineBase64Encoding             :same_encoding
+//@   ensures err != nil ==> result == nil
+//@ func (b *Base64Encoder) Ratio
+//@   property C08
+//@   pure
+//@   ensures result == 4.0/3.0
+//@ func (b *Base64Encoder) Code
+//@   property C08
+//@   pure
+//@   ensures result == 'S'
+
+// ---- Base64u
+//@ func (b *Base64uEncoder) Encode
+//@   property C08
+//@   safe
+//@   modifies G_lastenc()
+//@   ensures G_lastenc() == iodineBase64uEncoding            :same_encoding
+//@   ensures len(result) == (len(data)*8+5)/6                :len
+//@ func (b *Base64uEncoder) Decode
+//@   property C08
+//@   safe
+//@   modifies G_lastenc()
+//@   ensures G_lastenc() == iodineBase64uEncoding            :same_encoding
+//@   ensures err != nil ==> result == nil
+//@ func (b *Base64uEncoder) Ratio
+//@   property C08
+//@   pure
+//@   ensures result == 4.0/3.0
+//@ func (b *Base64uEncoder) Code
+//@   property C08
+//@   pure
+//@   ensures result == 'U'
+
+// ---- Base91
+//@ func (b *Base91Encoder) Encode
+//@   property C08
+//@   safe
+//@   modifies G_lastenc()
+//@   ensures G_lastenc() == iodineBase91Encoding             :same_encoding
+//@   ensures len(result) <= (len(data)*16+12)/13 + 1         :len
+//@ func (b *Base91Encoder) Decode
+//@   property C08
+//@   safe
+//@   modifies G_lastenc()
+//@   ensures G_lastenc() == iodineBase91Encoding             :same_encoding
+//@   ensures err != nil ==> result == nil
+//@ func (b *Base91Encoder) Ratio
+//@   property C08
+//@   pure
+//@   ensures result == 1.231
+//@ func (b *Base91Encoder) Code
+//@   property C08
+//@   pure
+//@   ensures result == 'X'
+
+// ---- Raw
+//@ func (b *RawEncoder) Encode
+//@   property C08
+//@   safe
+//@   pure
+//@   ensures len(result) == len(data) && (forall i :: 0 <= i && i < len(data) ==> result[i] == data[i])   :identity
+//@ func (b *RawEncoder) Decode
+//@   property C08
+//@   safe
+//@   pure
+//@   ensures err == nil && len(result) == len(data) && (forall i :: 0 <= i && i < len(data) ==> result[i] == data[i])   :identity
+//@ func (b *RawEncoder) Ratio
+//@   property C08
+//@   pure
+//@   ensures result == 1.0
+//@ func (b *RawEncoder) Code
+//@   property C08
+//@   pure
+//@   ensures result == 'R'
+
+// ---- Base85: ascii85 with '.', '\\' and '`' replaced by letters outside its alphabet
+//@ pred sub85ok(b byte) := dnsSafe(b) && b != '`'
+//@ func (b *Base85Encoder) Encode
+//@   property C08
+//@   safe
+//@   ensures len(result) <= len(data)/4*5 + (len(data)%4 + 1)                              :len
+//@   ensures forall i :: 0 <= i && i < len(result) ==> sub85ok(result[i])                   :alphabet
+//@   loop 1 vars iter int, rng []byte
+//@   loop 1 invariant forall j :: 0 <= j && j < iter ==> sub85ok(rng[j])
+//@   loop 1 invariant forall j :: iter <= j && j < len(rng) ==> inA85(rng[j])
+//@ func (b *Base85Encoder) Decode
+//@   property C08
+//@   safe
+//@   ensures err != nil ==> result == nil
+//@ func (b *Base85Encoder) Ratio
+//@   property C08
+//@   pure
+//@   ensures result == 1.25
+//@ func (b *Base85Encoder) Code
+//@   property C08
+//@   pure
+//@   ensures result == 'W'
+
+// ---- Base128: 7 bytes -> 8 characters of cb128
+//@ func escape128
+//@   property C08
+//@   safe
+//@   requires forall i :: 0 <= i && i < len(src) ==> src[i] < 128
+//@   ensures len(result) == len(src)                                                          :len
+//@   ensures forall i :: 0 <= i && i < len(src) ==> result[i] == cb128[src[i]]                :table
+//@   ensures forall i :: 0 <= i && i < len(result) ==> dnsSafe(result[i])                     :alphabet
+//@   loop 1 vars iter int, res []byte
+//@   loop 1 invariant len(res) == len(src) && spec_fresh(res) && res != nil
+//@   loop 1 invariant forall j :: 0 <= j && j < iter ==> res[j] == cb128[src[j]]
+//@ func (b *Base128Encoder) Encode
+//@   property C08
+//@   safe
+//@   ensures 7*len(result) >= 8*len(src)                                                      :len_lower
+//@   ensures 7*len(result) < 8*len(src) + 7                                                   :len_upper
+//@   ensures forall i :: 0 <= i && i < len(result) ==> dnsSafe(result[i])                     :alphabet
+//@   loop 1 vars iter int, dst []byte, whichByte uint, bufByte byte
+//@   loop 1 invariant 1 <= whichByte && whichByte <= 7 && iter == 7*(len(dst)-iter) + int(whichByte) - 1 && bufByte < 128
+//@   loop 1 invariant whichByte == 1 ==> bufByte == 0
+//@   loop 1 invariant forall j :: 0 <= j && j < len(dst) ==> dst[j] < 128
+//@ func unescape128
+//@   property C08
+//@   safe
+//@   ensures len(result) == len(src)
+//@ func (b *Base128Encoder) Decode
+//@   property C08
+//@   safe
+//@   ensures err != nil ==> result == nil
+//@ func (b *Base128Encoder) Ratio
+//@   property C08
+//@   pure
+//@   ensures result == 8.0/7.0
+//@ func (b *Base128Encoder) Code
+//@   property C08
+//@   pure
+//@   ensures result == 'V'
+
+// ---- codec table
+//@ func FromCode
+//@   property C08
+//@   safe
+//@   ensures err == nil ==> result != nil          :never_nil_nil
+
+// ---- interface contract of enc.Encoder (what callers may rely on for any codec)
+//@ iface (github.com/bokysan/socketace/v2/internal/util/enc.Encoder).Code (e Encoder) (result byte)
+//@   pure
+//@ iface (github.com/bokysan/socketace/v2/internal/util/enc.Encoder).Name (e Encoder) (result string)
+//@   pure
+//@ iface (github.com/bokysan/socketace/v2/internal/util/enc.Encoder).Ratio (e Encoder) (result float64)
+//@   pure
+//@ iface (github.com/bokysan/socketace/v2/internal/util/enc.Encoder).TestPatterns (e Encoder) (result [][]byte)
+//@   pure
+//@ iface (github.com/bokysan/socketace/v2/internal/util/enc.Encoder).Encode (e Encoder, data []byte) (result []byte)
+//@   modifies G_lastenc()
+//@ iface (github.com/bokysan/socketace/v2/internal/util/enc.Encoder).Decode (e Encoder, data []byte) (result []byte, err error)
+//@   modifies G_lastenc()
+
+// ---- Base192 (upstream marks it "does not work properly as of yet"; reachable through FromCode('Y'))
+//@ func (b *Base192Encoder) Encode
+//@   property C08
+//@   ensures forall i :: 0 <= i && i < len(result) ==> dnsSafe(result[i])                     :alphabet
+//@ func (b *Base192Encoder) Ratio
+//@   property C08
+//@   pure
+//@   ensures result == 8.0/7.5
+//@ func (b *Base192Encoder) Code
+//@   property C08
+//@   pure
+//@   ensures result == 'Y'
